@@ -284,7 +284,7 @@ func (l *lgen) bigRawAreal() geom.Geometry {
 func validGen(r *rand.Rand, n int, tier string, emit func(Case)) {
 	defer func() {
 		for i := 0; i < bigExtra(n); i++ { // large sizes
-			l := bigLattice(r)
+			l := bigLatticeTo(r, 12, 16) // validity works with the sixth power of the side (DESIGN 4.4)
 			var g geom.Geometry
 			switch r.Intn(6) {
 			case 0:
